@@ -1,4 +1,4 @@
-import SciVerif.Lemmas.C19c
+import SciVerif.Lemmas.C19g
 
 /-!
 # C19 — Exported configuration files carry the same values as the environment
@@ -53,51 +53,98 @@ theorem C19_type_names_prefix_free :
 /-- `str(int)` then reading the decimal numeral is the identity, for every integer -/
 theorem C19_decimal_roundtrip (i : Int) : readInt (showInt i) = some i := readInt_showInt i
 
+/-- every string, written as a literal the way the repaired exporters do (C / C++ / Rust: `\\` → `\\\\`,
+    `"` → `\\"`; Fortran: `"` → `""`), is read back unchanged — no restriction on its characters -/
+theorem C19_string_literal_roundtrip (q : Quoting) (v : Str) : unquote q (quoteStr q v) = some v :=
+  unquote_quote q v
+
 /-- the bracket machine inverts the nested-list printer for every tree (any rank, any sizes, also
-    ragged) whose leaves are bare tokens or quoted strings without an inner quote -/
-theorem C19_machine_inverts_printer (o c : Char) (g : Good o c) (t : TokTree) (h : SafeTree o c t) :
-    parseInit o c (printTok o c t) = some t := parseInit_printTok o c g t h
+    ragged) whose leaves are bare tokens or string literals as the exporters write them -/
+theorem C19_machine_inverts_printer (q : Quoting) (o c : Char) (g : Good o c) (t : TokTree)
+    (h : SafeTree q o c t) : parseInit q o c (printTok o c t) = some t := parseInit_printTok q o c g t h
 
-example : SafeTree '{' '}' (.arr [.arr [.leaf (cs!"1"), .leaf (cs!"-2")], .arr [.leaf (cs!"\"a, }b\"")]]) := by
+example : SafeTree .backslash '{' '}'
+    (.arr [.arr [.leaf (cs!"1"), .leaf (cs!"-2")], .arr [.leaf (quoteStr .backslash (cs!"a, }\"b\\"))]]) := by
   refine ⟨⟨SafeTok.bare _ (by decide) (by simp [plainChar]), SafeTok.bare _ (by decide) (by simp [plainChar]), trivial⟩,
-    ⟨SafeTok.quoted (cs!"a, }b") (by decide), trivial⟩, trivial⟩
+    ⟨SafeTok.quoted _, trivial⟩, trivial⟩
 
-/-- C / C++ : `_parse_value` text of ANY nested value of kind `k` (every rank and size; strings
-    without quote or backslash), read as a brace initialiser and interpreted at kind `k`, is the value -/
+/-- C / C++ : `_parse_value` text of ANY nested value of kind `k` (every rank and size, every
+    string), read as a brace initialiser and interpreted at kind `k`, is the value -/
 theorem C19_initialiser_roundtrip_c (k : Kind) (v : Val) (hv : ValOK k v) :
-    (parseInit '{' '}' (printVal styleC v)).bind (interp k (cs!"true") (cs!"false")) = some v :=
+    (parseInit .backslash '{' '}' (printVal styleC v)).bind (interp .backslash k (cs!"true") (cs!"false")) = some v :=
   roundtrip_val styleC '{' '}' styleC_ok k v hv
 
 /-- Rust: the same with bracket initialisers -/
 theorem C19_initialiser_roundtrip_rust (k : Kind) (v : Val) (hv : ValOK k v) :
-    (parseInit '[' ']' (printVal styleRust v)).bind (interp k (cs!"true") (cs!"false")) = some v :=
+    (parseInit .backslash '[' ']' (printVal styleRust v)).bind (interp .backslash k (cs!"true") (cs!"false")) = some v :=
   roundtrip_val styleRust '[' ']' styleRust_ok k v hv
 
 example : ValOK Kind.int (.arr [.arr [.leaf (.i 1), .leaf (.i (-2))], .arr [.leaf (.i 3), .leaf (.i 4)]]) := by
   simp [ValOK, ValsOK, ScalarOK]
 
-example : ValOK Kind.str (.arr [.leaf (.s (cs!"a b, {c}"))]) := by
-  simp [ValOK, ValsOK, ScalarOK, cleanStrChar]
+example : ValOK Kind.str (.arr [.leaf (.s (cs!"he said \"hi\", C:\\dir {c}"))]) := by
+  simp [ValOK, ValsOK, ScalarOK]
 
-/-- strings containing a quote are NOT read back (the exporters do not escape): the unguarded
-    statement is false -/
-theorem C19_initialiser_string_quote_counterexample :
-    ¬ (∀ v : Str, (parseInit '{' '}' (printVal styleC (.leaf (.s v)))).bind
-        (interp Kind.str (cs!"true") (cs!"false")) = some (.leaf (.s v))) := by
-  intro h
-  have := congrArg Option.isSome (h (cs!"a\"b"))
-  revert this
-  decide
+/-! ## declaration lines: `read_b (export_b param) = expected param` -/
+
+/-- full statement for one back-end: reading the whole exported file gives, for every selected
+    parameter, the symbol the property demands.  Proved below for every single declaration line of
+    the C, C++ and Rust back-ends (`…_line_partial`); the file framing (include guard / module
+    lines, splitting the text into lines, `#define` lines) is covered by the correspondence only. -/
+def C19_roundtrip_c_statement : Prop :=
+  ∀ (backend : Str), backend = bC ∨ backend = bCpp →
+  ∀ (o : COpts) (data : List Param) (text : Str),
+    (if backend = bC then exportC o data else exportCpp o data) = some text →
+    readC backend o.guard text = expected backend o.rename o.define (data.map (fun p =>
+      if o.define.contains p.name then
+        match p.value with
+        | .leaf (.b v) => { p with value := .leaf (.i (if v then 1 else 0)) }
+        | _ => p
+      else p))
+
+def C19_roundtrip_rust_statement : Prop :=
+  ∀ (ren : Bool) (data : List Param) (text : Str),
+    exportRust ren data = some text → readRust text = expected bRust ren [] data
+
+/-- C / C++ : for EVERY parameter (any name without `[` / blank after renaming, any DIP kind and width,
+    any rank and size, any string content) the exported `const` / `constexpr` declaration line, read
+    by the C reader model, is exactly the expected symbol: mapped name, the declared type
+    `_parse_dtype` chose, the shape, the value in row-major nesting.  Both sides are undefined
+    exactly when `_parse_dtype` has no type for the node. -/
+theorem C19_roundtrip_c_line_partial (backend kw : Str) (hb : backend = bC ∨ backend = bCpp)
+    (hkw : kw = cs!"const" ∨ kw = cs!"constexpr") (ren : Bool) (p : Param) (sh : List Nat)
+    (hn : ∀ ch ∈ rename ren p.name, ch ≠ '[' ∧ ch ≠ ' ')
+    (hv : ValOK p.kind p.value) (hr : rectShape p.value = some sh) (h0 : 0 ∉ sh) :
+    (lineConst backend kw ren p).bind (readConstLine backend) = expectedSym backend ren false p :=
+  readConstLine_lineConst backend kw hb hkw ren p sh hn hv hr h0
+
+/-- Rust: the same for `pub const NAME: [[T; n]; m] = [[…]];` lines -/
+theorem C19_roundtrip_rust_line_partial (ren : Bool) (p : Param) (sh : List Nat)
+    (hn : ∀ ch ∈ rename ren p.name, ch ≠ ':')
+    (hv : ValOK p.kind p.value) (hr : rectShape p.value = some sh) (h0 : 0 ∉ sh) :
+    (lineRust ren p).bind readRustLine = expectedSym bRust ren false p :=
+  readRustLine_lineRust ren p sh hn hv hr h0
+
+/-- the hypotheses are satisfiable by a non-trivial parameter, and the conclusion is not `none = none` there -/
+example : let p : Param := ⟨cs!"box.names", .str, 0,
+      .arr [.arr [.leaf (.s (cs!"a \"b\"")), .leaf (.s (cs!"C:\\d"))], .arr [.leaf (.s (cs!"x")), .leaf (.s (cs!"}, {"))]],
+      none, []⟩
+    (∀ ch ∈ rename true p.name, ch ≠ '[' ∧ ch ≠ ' ') ∧ ValOK p.kind p.value ∧
+      rectShape p.value = some [2, 2] ∧ 0 ∉ [2, 2] ∧
+      ((lineConst bC (cs!"const") true p).bind (readConstLine bC)).isSome = true ∧
+      ((lineRust true p).bind readRustLine).isSome = true := by
+  refine ⟨by decide, by simp [ValOK, ValsOK, ScalarOK], by decide, by decide, by decide, by decide⟩
 
 /-! ## Fortran `reshape` -/
 
-/-- full statement: with `order=[k,…,1]` (what the repaired exporter writes) `reshape` of the
-    row-major element list gives back every rectangular nested value.  NOT proved in general here
-    (index arithmetic over `build`/`rowPos`); validated against gfortran on every run, and checked
-    below on instances. -/
-def C19_reshape_rowmajor_statement : Prop :=
-  ∀ (v : TokTree) (dims : List Nat), rectShape v = some dims →
-    reshapeF (flatten v) dims (some (orderList dims.length)) = some v
+/-- with `order=[k,…,1]` (what the repaired exporter writes) `reshape` of the row-major element
+    list gives back EVERY rectangular nested value, of any rank and any sizes -/
+theorem C19_reshape_rowmajor {α : Type} (v : Tree α) (dims : List Nat) (h : rectShape v = some dims) :
+    reshapeF (flatten v) dims (some (orderList dims.length)) = some v :=
+  reshapeF_flatten v dims h
+
+example : rectShape (.arr [.arr [.leaf ['1'], .leaf ['2'], .leaf ['3']], .arr [.leaf ['4'], .leaf ['5'], .leaf ['6']]] : TokTree)
+    = some [2, 3] := by decide
 
 /-- the default (column-major) `reshape(src, shape)` the unrepaired exporter relied on does not -/
 theorem C19_reshape_colmajor_counterexample :
@@ -110,30 +157,27 @@ theorem C19_reshape_colmajor_counterexample :
   revert this
   decide
 
-/-- what column-major filling makes of `[[1,2,3],[4,5,6]]` : `M(1,2) = 3` -/
-theorem C19_reshape_colmajor_value :
+/-- (test) what column-major filling makes of `[[1,2,3],[4,5,6]]` : `M(1,2) = 3` -/
+example :
     (reshapeF [['1'], ['2'], ['3'], ['4'], ['5'], ['6']] [2, 3] none).map flatten =
       some [['1'], ['3'], ['5'], ['2'], ['4'], ['6']] := by
   decide
 
-/-- … and `order=[2,1]` / `order=[3,2,1]` restore the row-major reading on these instances -/
-theorem C19_reshape_order_instances :
-    (reshapeF [['1'], ['2'], ['3'], ['4'], ['5'], ['6']] [2, 3] (some [2, 1])).map flatten =
-      some [['1'], ['2'], ['3'], ['4'], ['5'], ['6']] ∧
+/-- (test) `order=[3,2,1]` on one rank-3 instance -/
+example :
     (reshapeF [['1'], ['2'], ['3'], ['4'], ['5'], ['6'], ['7'], ['8'], ['9'], ['a'], ['b'], ['c']] [2, 3, 2]
         (some [3, 2, 1])).map flatten =
       some [['1'], ['2'], ['3'], ['4'], ['5'], ['6'], ['7'], ['8'], ['9'], ['a'], ['b'], ['c']] := by
   decide
 
-/-! ## selection and renaming -/
+/-! ## Bash -/
 
-theorem dropPrefix_iff : ∀ (p s r : Str), dropPrefix? p s = some r ↔ s = p ++ r
-  | [], s, r => by simp [dropPrefix?]
-  | _ :: _, [], r => by simp [dropPrefix?]
-  | a :: p, b :: s, r => by
-    by_cases h : a = b
-    · subst h; simp [dropPrefix?, dropPrefix_iff p s r]
-    · simp [dropPrefix?, h]; intro e; exact absurd e.symm h
+/-- every string value, escaped by the repaired `_parse_scalar` (`\\`, `"`, `$`, backquote get a
+    backslash) and read by Bash as one double-quoted word, is unchanged -/
+theorem C19_bash_string_roundtrip (v : Str) : bashWordValue (bashScalar (.s v)) = some v :=
+  bashWordValue_scalar v
+
+/-! ## selection and renaming -/
 
 /-- a query `pre.*` selects exactly the nodes named `pre.<rest>` and exports them as `<rest>` -/
 theorem C19_selection_prefix (pre n r : Str) :
